@@ -30,6 +30,52 @@ inductive SpecStep : List Nat → Out → List Nat → Prop
   | empty : SpecStep [] .null []
   | destroy (q b) : (b = true ↔ q = []) → SpecStep q (.destroyed b) q
 
+/-- linearisation point of a successful dequeue: the returned node is the oldest element -/
+theorem deq_linearizes {c s s' t l p} (hc : Current c) (r : Reach c s) (st : step c s t l = some (s', .node p)) :
+    abs s = p :: abs s' := by
+  have i := reach_inv hc.1 r
+  have f' := (inv_step hc.1 i st).fifo
+  obtain ⟨-, rfl, -, -, -, rfl⟩ := out_node st rfl
+  rcases step_deqd st with e | ⟨-, e1, e2⟩
+  · exfalso; simp [casHeadOk, tick] at e
+  · rw [e1, e2, i.fifo, List.append_assoc] at f'
+    exact List.append_cancel_left f'
+
+/-- linearisation point of the NULL answer -/
+theorem null_linearizes {c s s' t l} (hc : Current c) (r : Reach c s) (st : step c s t l = some (s', .null)) :
+    abs s = [] ∧ abs s' = [] ∧ s.chain = [s.head] ∧ s.isDummy s.head = true := by
+  have i := reach_inv hc.1 r
+  obtain ⟨-, hp, h0, hd, rfl⟩ := out_null st rfl
+  have ⟨e1, e2⟩ := null_chain i hp h0
+  have a0 : abs s = [] := by simp [abs, e2, ← e1, hd]
+  have : abs (ldNextNull s t) = abs s := by simp [abs, ldNextNull, tick]
+  exact ⟨a0, by rw [this, a0], e2, by rw [← e1]; exact hd⟩
+
+/-- destroy: 0 iff the abstract queue is empty; nothing changes -/
+theorem destroy_linearizes {c s s' t l b} (hc : Current c) (r : Reach c s)
+    (st : step c s t l = some (s', .destroyed b)) : (b = true ↔ abs s = []) ∧ abs s' = abs s ∧ quiescent c s := by
+  have i := reach_inv hc.1 r
+  obtain ⟨-, hb, hq, -, -, e3, e4⟩ := out_destroyed st rfl
+  have w : destroyOk c s = (s.chain.all s.isDummy) := by
+    simp only [destroyOk, hc.2, if_true]; exact walk_all i.seg
+  have a : (s.chain.all s.isDummy = true) ↔ abs s = [] := by
+    simp [abs, List.filter_eq_nil_iff]
+  exact ⟨by rw [hb, w]; exact a, by simp [abs, e3, e4], hq⟩
+
+/-- every other step leaves the abstract queue unchanged or is the linearisation point of an enqueue -/
+theorem unit_linearizes {c s s' t l} (hc : Current c) (r : Reach c s) (st : step c s t l = some (s', .unit)) :
+    abs s' = abs s ∨ (l = .casNext ∧ s.pc t = .eCas ∧ s.next (s.tl t) = 0 ∧ s.isDummy (s.node t) = false ∧
+      abs s' = abs s ++ [s.node t]) := by
+  have i := reach_inv hc.1 r
+  have f := i.fifo
+  have f' := (inv_step hc.1 i st).fifo
+  rcases step_enqd st with e | ⟨h1, h2, h3, h4, -, e1, e2⟩
+  · rcases step_deqd st with e2 | ⟨e2, -⟩
+    · rw [e, e2, f] at f'; exact .inl (List.append_cancel_left f').symm
+    · cases e2
+  · rw [e1, e2, f, List.append_assoc] at f'
+    exact .inr ⟨h1, h2, h3, h4, (List.append_cancel_left f').symm⟩
+
 /-- **lfq_refines_fifo**: every step of every thread in every reachable state is a step of the abstract
 FIFO on `abs s` = the user nodes reachable from `q.head` in memory: enqueue takes effect at its
 successful `cmpxchg(&tail->next, NULL, node)`, dequeue at its successful `cmpxchg(&q->head, head, next)`
@@ -38,52 +84,14 @@ on a dummy, at which instant the abstract queue is empty; destroy answers 0 iff 
 step (tail helping, dummy insertion and removal, allocation, reclamation, sections) leaves it unchanged. -/
 theorem lfq_refines_fifo {c s s' t l o} (hc : Current c) (r : Reach c s) (st : step c s t l = some (s', o)) :
     SpecStep (abs s) o (abs s') := by
-  have i := reach_inv hc.1 r
-  have i' := inv_step hc.1 i st
-  have f := i.fifo
-  have f' := i'.fifo
   cases o with
-  | node p =>
-    obtain ⟨-, rfl, -, -, -, rfl⟩ := out_node st rfl
-    rcases step_deqd st with e | ⟨-, e1, e2⟩
-    · exfalso; simp [casHeadOk, tick] at e
-    · rw [e1, e2, f, List.append_assoc] at f'
-      have := List.append_cancel_left f'
-      rw [this]; exact .deq _ _
-  | null =>
-    obtain ⟨-, hp, h0, hd, rfl⟩ := out_null st rfl
-    have ⟨e1, e2⟩ := null_chain i hp h0
-    have a0 : abs s = [] := by simp [abs, e2, ← e1, hd]
-    have : abs (ldNextNull s t) = abs s := by simp [abs, ldNextNull, tick]
-    rw [this, a0]; exact .empty
-  | destroyed b =>
-    have same : abs s' = abs s := by
-      rcases step_enqd st with e | ⟨-, -, -, -, e, -⟩
-      · rcases step_deqd st with e2 | ⟨e2, -⟩
-        · rw [e, e2, f] at f'; exact (List.append_cancel_left f').symm
-        · cases e2
-      · cases e
-    rw [same]
-    refine .destroy _ _ ?_
-    simp only [step] at st
-    split at st
-    · have w : destroyOk c s = (s.chain.all s.isDummy) := by
-        simp only [destroyOk, hc.2, if_true]; exact walk_all i.seg
-      have a : (s.chain.all s.isDummy = true) ↔ abs s = [] := by
-        simp [abs, List.filter_eq_nil_iff]
-      split at st
-      · next g => simp only [Option.some.injEq, Prod.mk.injEq, Out.destroyed.injEq] at st
-                  rw [← st.2, ← a, ← w, g]
-      · next g => simp only [Option.some.injEq, Prod.mk.injEq, Out.destroyed.injEq] at st
-                  rw [← st.2, ← a, ← w]; simp [g]
-    · simp at st
+  | node p => rw [deq_linearizes hc r st]; exact .deq _ _
+  | null => have ⟨a, b, _⟩ := null_linearizes hc r st; rw [a, b]; exact .empty
+  | destroyed b => have ⟨a, e, _⟩ := destroy_linearizes hc r st; rw [e]; exact .destroy _ _ a
   | unit =>
-    rcases step_enqd st with e | ⟨-, -, -, -, -, e1, e2⟩
-    · rcases step_deqd st with e2 | ⟨e2, -⟩
-      · rw [e, e2, f] at f'; rw [← List.append_cancel_left f']; exact .tau _
-      · cases e2
-    · rw [e1, e2, f, List.append_assoc] at f'
-      rw [← List.append_cancel_left f']; exact .enq _ _
+    rcases unit_linearizes hc r st with e | ⟨-, -, -, -, e⟩
+    · rw [e]; exact .tau _
+    · rw [e]; exact .enq _ _
 
 /-- history form of the refinement: the sequence of user nodes in the order of their linking CAS equals
 the sequence of returned nodes (in the order of their head CAS) followed by the present content —
@@ -120,11 +128,10 @@ and it was put there by an enqueue. -/
 theorem dummy_never_returned {c s s' t l p} (hc : Current c) (r : Reach c s)
     (st : step c s t l = some (s', .node p)) :
     s.isDummy p = false ∧ (abs s).head? = some p ∧ p ∈ s.enqd := by
-  have h := lfq_refines_fifo hc r st
+  have e := deq_linearizes hc r st
   obtain ⟨-, -, -, -, hd, -⟩ := out_node st rfl
   have f := (reach_inv hc.1 r).fifo
-  cases h with
-  | deq n q => next e => exact ⟨hd, by simp [← e], by rw [f, ← e]; simp⟩
+  exact ⟨hd, by simp [e], by rw [f, e]; simp⟩
 
 /-- **always_one_node**: the chain from `q.head` is never empty (`q.head` is never NULL, `head->next` is never
 NULL when the CAS on `q.head` is attempted). -/
@@ -186,23 +193,16 @@ theorem cas_next_success_means_last {c s t} (hc : Current c) (r : Reach c s) (hp
 /-- **destroy_iff_empty**: at quiescence (a precondition of the call, and of the step) `cds_lfq_destroy_rcu`
 returns 0 iff the abstract queue is empty. -/
 theorem destroy_iff_empty {c s s' t ok} (hc : Current c) (r : Reach c s)
-    (st : step c s t .destroy = some (s', .destroyed ok)) : (ok = true ↔ abs s = []) ∧ quiescent c s := by
-  have h := lfq_refines_fifo hc r st
-  refine ⟨?_, ?_⟩
-  · cases h with
-    | destroy q b hb => exact hb
-  · simp only [step] at st
-    split at st
-    · next g => exact g.2.2
-    · simp at st
+    (st : step c s t .destroy = some (s', .destroyed ok)) : (ok = true ↔ abs s = []) ∧ quiescent c s :=
+  have ⟨a, _, q⟩ := destroy_linearizes hc r st
+  ⟨a, q⟩
 
 /-- **dequeue_null_only_if_empty_at_some_instant**: the step at which a dequeue decides to answer NULL (a step
 of that call) is taken in a state whose abstract queue is empty; memory then holds the single dummy. -/
 theorem dequeue_null_only_if_empty_at_some_instant {c s s' t l} (hc : Current c) (r : Reach c s)
-    (st : step c s t l = some (s', .null)) : abs s = [] ∧ s.chain = [s.head] ∧ s.isDummy s.head = true := by
-  obtain ⟨-, hp, h0, hd, -⟩ := out_null st rfl
-  have ⟨e1, e2⟩ := null_chain (reach_inv hc.1 r) hp h0
-  exact ⟨by simp [abs, e2, ← e1, hd], e2, by rw [← e1]; exact hd⟩
+    (st : step c s t l = some (s', .null)) : abs s = [] ∧ s.chain = [s.head] ∧ s.isDummy s.head = true :=
+  have ⟨a, _, b, d⟩ := null_linearizes hc r st
+  ⟨a, b, d⟩
 
 /-- the full statement of C12 at the level of the model (every conjunct is proved above) -/
 def C12_full : Prop :=
